@@ -277,9 +277,10 @@ def handle : List String → String
       let fstLen := u64le (indexBytes.drop (indexBytes.length - 8))
       if fstLen = 0 then "empty"
       else
-        let store := openStore ((indexBytes.take (indexBytes.length - 8)).drop fstLen)
+        let storeRegion := (indexBytes.take (indexBytes.length - 8)).drop fstLen
+        let store := openStore storeRegion
         let addrs := store.all
-        s!"{",".intercalate (addrs.map (fun a => s!"{a.firstOrd}:{a.start}:{a.stop}"))}|{showNats (os.map store.locateOrd)}|reenc={showBool store.reencodeOk}"
+        s!"{",".intercalate (addrs.map (fun a => s!"{a.firstOrd}:{a.start}:{a.stop}"))}|{showNats (os.map store.locateOrd)}|reenc={showBool (store.reencodeOk && reencodeStoreOk storeRegion)}"
     | _, _ => "bad-op"
   | ["bitpack", vs, ws] =>
     match valList vs, valList ws with
